@@ -520,6 +520,13 @@ func run(p Prog) *prog.Result {
 			cls("rerun-attempt-after-restart")
 		}
 		if err == nil {
+			if atOrBelow(slot) && slot == 0 {
+				// ShouldProcessDuty's documented genesis exemption (Height != 0): a duty for slot 0 is let through even when
+				// height 0 is known. Slot 0 lies years in the past for every real network; counted, not judged.
+				cls("obs:slot-0-duty-accepted-under-genesis-exemption")
+				raise(slot)
+				return judgeStore(step, "duty", -1)
+			}
 			if atOrBelow(slot) {
 				sig := "C15:duty-started-at-or-below-floor"
 				if restarted && slot <= restoredHeight {
